@@ -816,7 +816,7 @@ func runC04(c *Ctx) error {
 			}
 		}
 		for h := int64(-1); h <= maxH+1; h++ {
-			for cnt := int64(1); cnt <= 4; cnt++ {
+			for cnt := int64(-1); cnt <= 4; cnt++ { // incl. count 0 and a negative count: empty windows
 				if _, err := ask(fmt.Sprintf("byheight %d %d", h, cnt)); err != nil {
 					return err
 				}
